@@ -41,6 +41,8 @@ impl<'a> UnixSendTo<'a> {
             self.io_data.io_flag.store(0, Ordering::Relaxed);
 
             match self.socket.send_to(self.buf, self.path) {
+                #[cfg(may_verif)]
+                ref r if crate::verif::sys(&self.io_data.io_flag, "sys.send_to", r) => unreachable!(),
                 Ok(n) => return Ok(n),
                 Err(e) => {
                     // raw_os_error is faster than kind
